@@ -158,7 +158,7 @@ def assert_bundle_attr(b: "Bundle", val: Any) -> None:
         raise TypeError(msg)
 
 
-_banned = ["signals", "bundles", "namespace"]
+_banned = ["signals", "bundles", "namespace", "add", "get", "props"]
 
 
 @attrmagic.init
@@ -279,6 +279,11 @@ class Bundle:
             return ns[key]
         return object.__getattribute__(self, key)
 
+    def __delattr__(self, __name: str) -> None:
+        """Disable attribute deletion, as `Module` does."""
+        msg = f"Cannot delete Bundle attribute {__name} of {self}"
+        raise RuntimeError(msg)
+
     def __call__(self, **kwargs):
         """Calls to Bundles return Bundle Instances"""
         return BundleInstance(of=self, **kwargs)
@@ -302,6 +307,13 @@ def _add(bundle: Bundle, val: BundleAttr) -> BundleAttr:
 
     if bundle._elaborated:  ## FIXME: is not None:
         raise RuntimeError(f"Cannot add {val} to {bundle} after elaboration.")
+
+    # Protected names are off limits, whichever way the attribute arrives: `add` or `setattr`.
+    # So are names which attribute-access never looks for in the bundle namespace.
+    reserved = _banned + ["name", "roles", "Roles"]
+    if val.name in reserved or val.name.startswith("_"):
+        msg = f"Invalid attribute name {val.name} for {val} in Bundle {bundle.name}"
+        raise RuntimeError(msg)
 
     # Sort out which of our type-based containers to add `val` to.
     if isinstance(val, Signal):
